@@ -168,6 +168,11 @@ def safe_run(mod, case, ctx):
     """
     state.reset(case)
     t0 = time.time()
+    cur = os.environ.get('VERIF_SLOW_LOG')
+    if cur:
+        # (what a worker that never comes back was working on)
+        with open('%s.current.%d' % (cur, os.getpid()), 'w') as f:
+            f.write(json.dumps(case))
     try:
         out = mod.run(case, ctx)
         if not isinstance(out, Outcome):
